@@ -245,3 +245,160 @@ def correspondence(c, tag, n_traces, steps):
         c.fail_obligation("model-walk", getattr(c, "last_walk_log", ""))
         return None
     return {"cases": cases, "traces": traces}
+
+
+# ---------------------------------------------------------------------------------------------
+MONITORS = ["corr", "c12_one_timer", "c02_save_before_emit", "c02_one_signature_per_lifetime",
+            "c02_one_signature_ever", "c08_targets", "c08_rounds", "c08_finalize", "c08_once_per_round",
+            "sm_responsive"]
+
+EVAL_HEADER = """From Coq Require Import List NArith String Bool.
+From GV Require Import Base.Ints Gen.Math Gen.StepSM Model.StateMachine Model.SMWire Model.SMWalk Monitors.SMm.
+Import ListNotations. Local Open Scope N_scope.
+Fixpoint ll_eqb (a b : list (list N)) : bool :=
+  match a, b with [], [] => true | x :: a', y :: b' => leqb x y && ll_eqb a' b' | _, _ => false end.
+Fixpoint outs_eqb (a b : list (list (list N) * list (list N))) : bool :=
+  match a, b with
+  | [], [] => true
+  | (x1, x2) :: a', (y1, y2) :: b' => ll_eqb x1 y1 && ll_eqb x2 y2 && outs_eqb a' b'
+  | _, _ => false
+  end.
+Definition nbb (b : bool) : N := if b then 1 else 0.
+Definition judge (es : list event) (sg : bool) (impl : list (list (list N) * list (list N))) : list N :=
+  let model := map project (run_events (sm0 sg) es) in
+  let t : list obs := combine (map enc_event es) (map (fun p => fst p ++ snd p) impl) in
+  let tm : list obs := combine (map enc_event es) (map (fun p => fst p ++ snd p) model) in
+  map nbb [outs_eqb model impl; c12_one_timer t; c02_save_before_emit t; c02_one_signature_per_lifetime t;
+           c02_one_signature_ever t; c08_targets t; c08_rounds t; c08_finalize t; c08_once_per_round t; sm_responsive t]
+  ++ map nbb [c12_one_timer tm; c02_save_before_emit tm; c02_one_signature_per_lifetime tm;
+              c02_one_signature_ever tm; c08_targets tm; c08_rounds tm; c08_finalize tm; c08_once_per_round tm; sm_responsive tm].
+"""
+
+
+def coq_impl(impl):
+    return "[" + "; ".join("(%s, %s)" % (coq_ll(a), coq_ll(b)) for a, b in impl) + "]"
+
+
+def judge_walked(c, tag, cases, impls):
+    """coqc run B: correspondence + monitors on the implementation's observations (and on the model's).
+    Returns list of dicts name->bool (model monitor values under 'model:<name>')."""
+    res = []
+    shard = 40
+    for si in range(0, len(cases), shard):
+        body = EVAL_HEADER + "Definition res := Eval vm_compute in [\n%s].\nPrint res.\n" % ";\n".join(
+            "judge (gen_trace %s %s) %s %s" % ("true" if sg else "false", coq_list(cs), "true" if sg else "false", coq_impl(impls[si + k]))
+            for k, (sg, cs) in enumerate(cases[si:si + shard]))
+        ok, txt = c.coq_eval("%s_judge_%d" % (tag, si // shard), body)
+        val = parse_coq_value(txt, "res") if ok else None
+        if val is None:
+            c.fail_obligation("cases-eval", txt[-1500:])
+            return None
+        for row in val:
+            d = {n: bool(row[i]) for i, n in enumerate(MONITORS)}
+            for i, n in enumerate(MONITORS[1:]):
+                d["model:" + n] = bool(row[len(MONITORS) + i])
+            res.append(d)
+    return res
+
+
+WITNESS_KEYS = {
+    1: ("C08", "finalize-after-catchup-view-without-quorum",
+        "after a committed-header response a view of the new round makes the state machine ask the driver to finalize a block without a precommit quorum"),
+    2: ("C08", "prevote-quorum-first-skips-precommit-decision",
+        "a prevote quorum seen while awaiting the proposal moves to awaiting precommits without ever asking the strategy for its precommit"),
+    3: ("C02", "restart-resigns-then-halts",
+        "a restart in the same round invokes the signer a second time for the same height/round, then the action store refuses and the state machine halts"),
+    4: ("C08", "enter-round-in-delay-step-panics", "entering a round whose view is already in prevote/precommit delay panics (beginRoundLive)"),
+    5: ("C08", "height-committed-outside-commit-wait-panics", "a height-committed signal while not in commit wait panics"),
+    6: ("C08", "catchup-commit-round-differs-panics", "replaying a block committed in another round than the state machine's panics when the driver echoes the request"),
+    7: ("C08", "jump-ahead-after-round-advance-panics", "a view update carrying a nil precommit quorum and a jump-ahead panics"),
+    8: ("C08", "catchup-leaves-validator-sets-empty", "catch-up from start-up leaves the validator-set bookkeeping empty; proposing two heights later panics"),
+}
+
+
+def run_witnesses(c, binary, pid):
+    """Re-runs the recorded witnesses (Proofs/SMWitness.v) on the real code. Reports a KNOWN-FINDING for
+    every witness of property `pid` that still shows its defect; a witness on which model and code
+    disagree is a broken correspondence."""
+    body = HEADER.replace("Model.SMWalk.", "Model.SMWalk Proofs.SMWitness.") + \
+        "Definition rep := Eval vm_compute in witness_report.\nPrint rep.\n"
+    ok, txt = c.coq_eval("sm_witness_%s" % pid.lower(), body)
+    val = parse_coq_value(txt, "rep") if ok else None
+    if val is None:
+        c.fail_obligation("witness-eval", txt[-1500:])
+        return
+    ids = [w[0] for w in val]
+    traces = [w[1] for w in val]
+    cases = [(1, [])] * len(traces)
+    impl, _ = run_harness(c, binary, cases, traces)
+    seen = []
+    for wid, tr, im in zip(ids, traces, impl):
+        prop, key, text = WITNESS_KEYS[wid]
+        d = first_diff(tr, im)
+        if prop != pid:
+            continue
+        if d is not None:
+            # the code no longer behaves like the model on this witness: the defect may be gone (fine) or the
+            # model is stale; the walked correspondence decides the latter
+            c.notes.append("witness %d (%s): implementation differs from the model at event %d" % (wid, key, d))
+            continue
+        seen.append(key)
+        c.report(key, text, {"witness": wid, "how": "bin/h_sm < replay input", "harness_input": harness_input(1, tr),
+                             "trace": render(tr, im)})
+    c.coverage["witnesses_reproduced"] = seen
+
+
+def walked(c, pid, binary, tag, n_traces, steps, clauses, classify):
+    """Full correspondence + monitor evaluation. `clauses`: monitor names that decide property `pid`;
+    `classify(name, trace_events) -> key` gives the finding key of a failing clause."""
+    r = correspondence(c, tag, n_traces, steps)
+    if r is None:
+        return
+    cases, traces = r["cases"], r["traces"]
+    impl, restarts = run_harness(c, binary, cases, traces)
+    flags = judge_walked(c, tag, cases, impl)
+    if flags is None:
+        return
+    n_events = sum(len(t) for t in traces)
+    evc, outc = {}, {}
+    for tr in traces:
+        for ev, mo in tr:
+            evc[EVENT_NAMES.get(ev[0], "?")] = evc.get(EVENT_NAMES.get(ev[0], "?"), 0) + 1
+            for x in list(mo[0]) + list(mo[1]):
+                outc[OUT_NAMES.get(x[0], "?")] = outc.get(OUT_NAMES.get(x[0], "?"), 0) + 1
+    distinct = len(set(tuple(tuple(e) for e, _ in tr) for tr in traces if len(tr) > 2))
+    bad_corr = []
+    for i, fl in enumerate(flags):
+        d = first_diff(traces[i], impl[i])
+        if not fl["corr"] or d is not None:
+            bad_corr.append((i, d))
+        for name in clauses:
+            if not fl[name]:
+                evs = [e for e, _ in traces[i]]
+                key = classify(name, evs, fl)
+                c.report(key, "monitor %s is false on the implementation's observations of a generated history" % name,
+                         {"monitor": name, "model_monitor_value": fl.get("model:" + name), "signer": cases[i][0],
+                          "how": "bin/h_sm < replay input", "harness_input": harness_input(cases[i][0], traces[i]),
+                          "trace": render(traces[i], impl[i])})
+    monitor_failed = any(not fl[n] for fl in flags for n in clauses)
+    if bad_corr and not monitor_failed:
+        i, d = bad_corr[0]
+        d = 0 if d is None else d
+        c.fail_obligation("correspondence Model/StateMachine.v vs tm/tmengine/internal/tmstate/statemachine.go",
+                          "model and real state machine differ on %d of %d generated histories; first: trace %d event %d" % (len(bad_corr), len(traces), i, d),
+                          {"signer": cases[i][0], "harness_input": harness_input(cases[i][0], traces[i], d),
+                           "how": "bin/h_sm < replay input", "trace": render(traces[i], impl[i], d)[-8:]})
+    c.samples += [{"events": [EVENT_NAMES.get(e[0], "?") for e, _ in tr][:14]} for tr in traces[:3]]
+    c.coverage.update({
+        "evaluations": n_events,
+        "traces": len(traces),
+        "distinct_nontrivial": distinct,
+        "rule": "event histories produced by walking the Coq model (Model/SMWalk.v) with choices from SplitMix64(VERIF_SEED): mostly valid "
+                "growth of votes/proposals plus stale versions, other rounds, empty updates, wrong finalization responses, strategy errors, "
+                "restarts; non-trivial = more than 2 events; every event's outputs compared between the real state machine and the model",
+        "traces_validated_against_impl": len(traces),
+        "correspondence_disagreements": len(bad_corr),
+        "event_distribution": evc,
+        "output_distribution": outc,
+        "monitor_failures_on_impl": sum(1 for fl in flags for n in clauses if not fl[n]),
+    })
